@@ -7,6 +7,7 @@ intended values) - it never parses argv; spellings are generated from the abstra
 expected verdict/values are known by construction.
 """
 import os
+import zlib
 import random
 import re
 import struct
@@ -92,7 +93,7 @@ class Arg:
             return "%s,%s" % (self.short, self.long)
         return self.short or self.long
 
-    def refspec(self, rng=None):
+    def refspec(self, rng=None, salt=None):
         """how a constraint refers to this argument"""
         forms = []
         if self.short:
@@ -101,6 +102,10 @@ class Arg:
             forms.append(self.long)
         if self.short and self.long:
             forms.append("%s,%s" % (self.short, self.long))
+        if salt is not None:
+            # deterministic, but different for different referring arguments / constraints: a constraint may name an argument
+            # by its short key, its long key or both
+            return forms[zlib.crc32((str(salt) + "|" + self.slot).encode()) % len(forms)]
         return rng.choice(forms) if rng else forms[-1]
 
     def default_card(self):
@@ -752,9 +757,9 @@ def scenario_text(sid, tag, cfg, argv, prog="prog", as_string=None):
             a = amap.get(parts[2])
             if a is not None:
                 if a.excludes:
-                    ln += " excl=" + hx(";".join(x.refspec() for x in a.excludes))
+                    ln += " excl=" + hx(";".join(x.refspec(salt="e" + a.slot) for x in a.excludes))
                 if a.requires:
-                    ln += " req=" + hx(";".join(x.refspec() for x in a.requires))
+                    ln += " req=" + hx(";".join(x.refspec(salt="r" + a.slot) for x in a.requires))
         res.append(ln)
     if getattr(cfg, "arg_file_key", None):
         res.append("AF " + hx(cfg.arg_file_key))
